@@ -69,7 +69,8 @@ theorem step_call_other (g : G) (i : Nat) (pc : Pc) (h : g.thr[i]? = some pc) (h
     (h1 : ∀ s g' as, pc ≠ .joinFiltered s g' as) (h2 : ∀ s g' as todo, pc ≠ .joinIn s g' as todo) :
     step g (.call i) =
       { g with st := (callStep g.st pc).1, thr := g.thr.set i (callStep g.st pc).2.1,
-               changes := g.changes ++ (callStep g.st pc).2.2.1, sent := g.sent ++ (callStep g.st pc).2.2.2 } := by
+               changes := g.changes ++ (callStep g.st pc).2.2.1, sent := g.sent ++ (callStep g.st pc).2.2.2,
+               staleG := g.staleG ++ staleGOf pc, staleW := g.staleW ++ staleWOf pc } := by
   unfold blocked at hb
   cases pc with
   | joinFiltered s g' as => exact absurd rfl (h1 s g' as)
@@ -104,70 +105,95 @@ theorem leaveEntry_some (st : State) (s g : Nat) (as : List Nat) {gs : GS} (h : 
     (leaveEntry st s g as).1 = (leave st s g as).1 := by
   simp [leaveEntry, h]
 
-theorem wb_all_empty (st : State) : ∀ a, WB a st {} := fun a => wb_empty a st
+
+/-- the entry region of a `demonitor*` whose fetch found no reverse-index `Arc`: forward side only -/
+def isFwd : Pc → Prop
+  | .demonitorFwd _ _ => True
+  | .demonitorScopeFwd _ _ => True
+  | _ => False
+
+def demFwdEff (g b : Nat) : Eff := { delL := fun k x => k = (defaultScope, g) ∧ x = b }
+def demScopeFwdEff (s b : Nat) : Eff := { delW := fun s' x => s' = s ∧ x = b }
+
+theorem trans_demonitorFwd (st : State) (g b : Nat) : Trans st (demonitorFwdSt st g b) (demFwdEff g b) := by
+  have t := trans_demonKey st b (defaultScope, g)
+  exact ⟨t.m, t.rm, t.l, t.rg, t.w, t.rw, t.d⟩
+
+theorem trans_demonitorScopeFwd (st : State) (s b : Nat) : Trans st (demonitorScopeFwdSt st s b) (demScopeFwdEff s b) := by
+  have t := trans_demonWKey st b s
+  exact ⟨t.m, t.rm, t.l, t.rg, t.w, t.rw, t.d⟩
 
 theorem call_trans (st : State) (pc : Pc) :
-    ∃ e, Trans st (callStep st pc).1 e ∧ (∀ a, WB a st e) ∧ (∀ x, x ∈ (callStep st pc).1.dead → x ∈ st.dead) ∧
+    ∃ e, Trans st (callStep st pc).1 e ∧ (∀ a, ¬ isFwd pc → WB a st e) ∧
+      (∀ x, x ∈ (callStep st pc).1.dead → x ∈ st.dead) ∧
       (∀ k x, e.delM k x → needsKey st pc = some k) := by
+  have wb_all_empty : ∀ a, ¬ isFwd pc → WB a st {} := fun a _ => wb_empty a st
   cases pc with
-  | join s g as => exact ⟨{}, trans_of_same (same_refl st), wb_all_empty st, fun _ h => h, by simp⟩
-  | joinFiltered s g as => exact ⟨{}, trans_of_same (same_refl st), wb_all_empty st, fun _ h => h, by simp⟩
-  | joinIn s g as todo => exact ⟨{}, trans_of_same (same_refl st), wb_all_empty st, fun _ h => h, by simp⟩
+  | join s g as => exact ⟨{}, trans_of_same (same_refl st), wb_all_empty, fun _ h => h, by simp⟩
+  | joinFiltered s g as => exact ⟨{}, trans_of_same (same_refl st), wb_all_empty, fun _ h => h, by simp⟩
+  | joinIn s g as todo => exact ⟨{}, trans_of_same (same_refl st), wb_all_empty, fun _ h => h, by simp⟩
   | joinEntered s g as p =>
-    exact ⟨{}, trans_of_same (same_joinCleanup st s g as), wb_all_empty st, fun _ h => h, by simp⟩
-  | notify p => exact ⟨{}, trans_of_same (same_refl st), wb_all_empty st, fun _ h => h, by simp⟩
+    exact ⟨{}, trans_of_same (same_joinCleanup st s g as), wb_all_empty, fun _ h => h, by simp⟩
+  | notify p => exact ⟨{}, trans_of_same (same_refl st), wb_all_empty, fun _ h => h, by simp⟩
   | leave s g as =>
     show ∃ e, Trans st (leaveEntry st s g as).1 e ∧ _ ∧ (∀ x, x ∈ (leaveEntry st s g as).1.dead → _) ∧ _
     cases h : get st.map (s, g) with
     | none =>
       rw [leaveEntry_none st s g as h]
-      exact ⟨{}, trans_of_same (same_refl st), wb_all_empty st, fun _ h => h, by simp⟩
+      exact ⟨{}, trans_of_same (same_refl st), wb_all_empty, fun _ h => h, by simp⟩
     | some gs =>
       rw [leaveEntry_some st s g as h]
-      refine ⟨leaveEff s g as, trans_leave st s g as h, fun a => wb_leave a st s g as, ?_, ?_⟩
+      refine ⟨leaveEff s g as, trans_leave st s g as h, fun a _ => wb_leave a st s g as, ?_, ?_⟩
       · intro x hx; rw [leave_dead st s g as h] at hx; exact hx
       · intro k x hk; simp only [leaveEff] at hk; simp [needsKey, hk.1]
-  | monitor g b => exact ⟨{}, trans_of_same (same_relCreate st b), wb_all_empty st, fun _ h => h, by simp⟩
+  | monitor g b => exact ⟨{}, trans_of_same (same_relCreate st b), wb_all_empty, fun _ h => h, by simp⟩
   | monitorRel g b =>
     show ∃ e, Trans st (monitorEntry st g b) e ∧ _ ∧ (∀ x, x ∈ (monitorEntry st g b).dead → _) ∧ _
     unfold monitorEntry
     by_cases hd : b ∈ st.dead
     · have : alive st b = false := by simp [alive, hd]
       rw [this]
-      exact ⟨{}, trans_of_same (same_touchGroup st _), wb_all_empty st, fun _ h => h, by simp⟩
+      exact ⟨{}, trans_of_same (same_touchGroup st _), wb_all_empty, fun _ h => h, by simp⟩
     · have : alive st b = true := alive_iff.mpr hd
       rw [this, if_pos rfl]
-      refine ⟨monitorEff g b, trans_monitor_alive st g b hd, fun a => wb_monitor a st g b hd, ?_, by simp [monitorEff]⟩
+      refine ⟨monitorEff g b, trans_monitor_alive st g b hd, fun a _ => wb_monitor a st g b hd, ?_, by simp [monitorEff]⟩
       intro x hx; rw [monitor_alive_state st g b hd] at hx; exact hx
   | monitorRecheck g b =>
-    refine ⟨{}, trans_of_same (same_monitorRecheck st g b), wb_all_empty st, ?_, by simp⟩
+    refine ⟨{}, trans_of_same (same_monitorRecheck st g b), wb_all_empty, ?_, by simp⟩
     intro x hx
     have hx' : x ∈ (monitorRecheck st g b).dead := hx
     unfold monitorRecheck at hx'; split at hx' <;> exact hx'
-  | monitorScope s b => exact ⟨{}, trans_of_same (same_relCreate st b), wb_all_empty st, fun _ h => h, by simp⟩
+  | monitorScope s b => exact ⟨{}, trans_of_same (same_relCreate st b), wb_all_empty, fun _ h => h, by simp⟩
   | monitorScopeRel s b =>
     show ∃ e, Trans st (monitorScopeEntry st s b) e ∧ _ ∧ (∀ x, x ∈ (monitorScopeEntry st s b).dead → _) ∧ _
     unfold monitorScopeEntry
     by_cases hd : b ∈ st.dead
     · have : alive st b = false := by simp [alive, hd]
       rw [this]
-      exact ⟨{}, trans_of_same (same_touchWorld st _), wb_all_empty st, fun _ h => h, by simp⟩
+      exact ⟨{}, trans_of_same (same_touchWorld st _), wb_all_empty, fun _ h => h, by simp⟩
     · have : alive st b = true := alive_iff.mpr hd
       rw [this, if_pos rfl]
-      refine ⟨monitorScopeEff s b, trans_monitorScope_alive st s b hd, fun a => wb_monitorScope a st s b hd, ?_,
+      refine ⟨monitorScopeEff s b, trans_monitorScope_alive st s b hd, fun a _ => wb_monitorScope a st s b hd, ?_,
         by simp [monitorScopeEff]⟩
       intro x hx; rw [monitorScope_alive_state st s b hd] at hx; exact hx
   | monitorScopeRecheck s b =>
-    refine ⟨{}, trans_of_same (same_monitorScopeRecheck st s b), wb_all_empty st, ?_, by simp⟩
+    refine ⟨{}, trans_of_same (same_monitorScopeRecheck st s b), wb_all_empty, ?_, by simp⟩
     intro x hx
     have hx' : x ∈ (monitorScopeRecheck st s b).dead := hx
     unfold monitorScopeRecheck at hx'; split at hx' <;> exact hx'
+  | demonitorCall g b => exact ⟨{}, trans_of_same (same_refl st), wb_all_empty, fun _ h => h, by simp⟩
   | demonitor g b =>
-    exact ⟨demonitorEff g b, trans_demonitor st g b, fun a => wb_demonitor a st g b, fun _ h => h, by simp [demonitorEff]⟩
+    exact ⟨demonitorEff g b, trans_demonitor st g b, fun a _ => wb_demonitor a st g b, fun _ h => h, by simp [demonitorEff]⟩
+  | demonitorFwd g b =>
+    exact ⟨demFwdEff g b, trans_demonitorFwd st g b, fun a h => absurd trivial h, fun _ h => h, by simp [demFwdEff]⟩
+  | demonitorScopeCall s b => exact ⟨{}, trans_of_same (same_refl st), wb_all_empty, fun _ h => h, by simp⟩
   | demonitorScope s b =>
-    exact ⟨demonitorScopeEff s b, trans_demonitorScope st s b, fun a => wb_demonitorScope a st s b, fun _ h => h,
+    exact ⟨demonitorScopeEff s b, trans_demonitorScope st s b, fun a _ => wb_demonitorScope a st s b, fun _ h => h,
       by simp [demonitorScopeEff]⟩
-  | done => exact ⟨{}, trans_of_same (same_refl st), wb_all_empty st, fun _ h => h, by simp⟩
+  | demonitorScopeFwd s b =>
+    exact ⟨demScopeFwdEff s b, trans_demonitorScopeFwd st s b, fun a h => absurd trivial h, fun _ h => h,
+      by simp [demScopeFwdEff]⟩
+  | done => exact ⟨{}, trans_of_same (same_refl st), wb_all_empty, fun _ h => h, by simp⟩
 
 /-- a region of the exit of `b`: its effect, well-behaved towards every OTHER actor -/
 theorem exreg_trans (st : State) (b : Nat) (ph : Phase) (r : ExReg) :
@@ -271,22 +297,22 @@ theorem phaseOf_ex (g : G) (b : Nat) (st' : State) (ph' : Phase) (ch : List Pend
 
 /-- the regions of `a`'s own exit -/
 theorem vinv_own_step (g : G) (a : Nat) (r : ExReg) (h : VInv a (gView g) (phaseOf g a)) (hs : ¬ exSkip g a r) :
-    VInv a (stView (fstep a ⟨g.st, phaseOf g a⟩ r.toFOp).st (accOf g)) (fstep a ⟨g.st, phaseOf g a⟩ r.toFOp).ph := by
+    VInv a (stView (fstep a ⟨g.st, phaseOf g a⟩ r.toFOp).st (auxOf g)) (fstep a ⟨g.st, phaseOf g a⟩ r.toFOp).ph := by
   have hmark : ¬ (r = .mark ∧ a ∈ g.st.dead) := fun x => hs (Or.inl x)
   generalize hph : phaseOf g a = ph at h
   cases r with
   | mark =>
     cases ph with
     | live =>
-      have t : VTrans (gView g) (stView (markDead g.st a) (accOf g)) {} :=
-        vtrans_lift (accOf g) (trans_of_same (same_markDead g.st a)) (by simp)
+      have t : VTrans (gView g) (stView (markDead g.st a) (auxOf g)) {} :=
+        vtrans_lift (auxOf g) (trans_of_same (same_markDead g.st a)) (by simp)
       exact vinv_mark (sameA_of_vtrans_empty t) (by show a ∈ (markDead g.st a).dead; simp [markDead]) h
     | _ => exact h
   | demTake =>
     cases ph with
     | marked =>
-      have t : VTrans (gView g) (stView (demonTake g.st a) (accOf g)) (demonTakeEff a) :=
-        vtrans_lift (accOf g) (trans_demonTake g.st a) (by simp [demonTakeEff])
+      have t : VTrans (gView g) (stView (demonTake g.st a) (auxOf g)) (demonTakeEff a) :=
+        vtrans_lift (auxOf g) (trans_demonTake g.st a) (by simp [demonTakeEff])
       refine vinv_demTake t _ _ ?_ ?_ h
       · intro k hk
         show k ∈ ((get g.st.rel a).map (·.gmon)).getD []
@@ -300,7 +326,7 @@ theorem vinv_own_step (g : G) (a : Nat) (r : ExReg) (h : VInv a (gView g) (phase
     | demon gk wk =>
       simp only [ExReg.toFOp, fstep]
       split
-      · exact vinv_demKey k (vtrans_lift (accOf g) (trans_demonKey g.st a k) (by simp [demonKeyEff])) gk wk h
+      · exact vinv_demKey k (vtrans_lift (auxOf g) (trans_demonKey g.st a k) (by simp [demonKeyEff])) gk wk h
       · exact h
     | _ => exact h
   | demWKey s =>
@@ -308,7 +334,7 @@ theorem vinv_own_step (g : G) (a : Nat) (r : ExReg) (h : VInv a (gView g) (phase
     | demon gk wk =>
       simp only [ExReg.toFOp, fstep]
       split
-      · exact vinv_demWKey s (vtrans_lift (accOf g) (trans_demonWKey g.st a s) (by simp [demonWKeyEff])) gk wk h
+      · exact vinv_demWKey s (vtrans_lift (auxOf g) (trans_demonWKey g.st a s) (by simp [demonWKeyEff])) gk wk h
       · exact h
     | _ => exact h
   | demDone =>
@@ -324,8 +350,8 @@ theorem vinv_own_step (g : G) (a : Nat) (r : ExReg) (h : VInv a (gView g) (phase
   | take =>
     cases ph with
     | demonDone =>
-      have t : VTrans (gView g) (stView (takeMem g.st a) (accOf g)) (takeMemEff a) :=
-        vtrans_lift (accOf g) (trans_takeMem g.st a) (by simp [takeMemEff])
+      have t : VTrans (gView g) (stView (takeMem g.st a) (auxOf g)) (takeMemEff a) :=
+        vtrans_lift (auxOf g) (trans_takeMem g.st a) (by simp [takeMemEff])
       refine vinv_take t _ ?_ h
       intro k hk
       show k ∈ ((get g.st.rel a).map (·.mem)).getD []
@@ -337,9 +363,9 @@ theorem vinv_own_step (g : G) (a : Nat) (r : ExReg) (h : VInv a (gView g) (phase
       simp only [ExReg.toFOp, fstep]
       split
       · have hu : accOf g k = [] := not_locked_acc (ex_unlocked hs rfl)
-        have t : VTrans (gView g) (stView (leaveKey g.st a k).1 (accOf g)) (leaveKeyEff a k) :=
-          vtrans_lift (accOf g) (trans_leaveKey g.st a k) (by
-            intro k' x hk'; simp only [leaveKeyEff] at hk'; rw [hk'.1, hu]; exact List.not_mem_nil)
+        have t : VTrans (gView g) (stView (leaveKey g.st a k).1 (auxOf g)) (leaveKeyEff a k) :=
+          vtrans_lift (auxOf g) (trans_leaveKey g.st a k) (by
+            intro k' x hk'; simp only [leaveKeyEff] at hk'; show x ∉ accOf g k'; rw [hk'.1, hu]; exact List.not_mem_nil)
         exact vinv_lvKey k t mk rm _ h
       · exact h
     | _ => exact h
@@ -348,27 +374,155 @@ theorem vinv_own_step (g : G) (a : Nat) (r : ExReg) (h : VInv a (gView g) (phase
     | leaving mk rm =>
       cases mk with
       | nil =>
-        have t : VTrans (gView g) (stView (finishLeave g.st a rm).1 (accOf g)) {} :=
-          vtrans_lift (accOf g) (trans_of_same (same_finishLeave g.st a rm)) (by simp)
+        have t : VTrans (gView g) (stView (finishLeave g.st a rm).1 (auxOf g)) {} :=
+          vtrans_lift (auxOf g) (trans_of_same (same_finishLeave g.st a rm)) (by simp)
         exact vinv_finish (sameA_of_vtrans_empty t) rm h
       | cons _ _ => exact h
     | _ => exact h
 
 /-- a region of the exit of another actor -/
 theorem envV_exreg (g : G) {a b : Nat} (hab : b ≠ a) (r : ExReg) (hs : ¬ exSkip g b r) :
-    EnvV a (gView g) (stView (fstep b ⟨g.st, phaseOf g b⟩ r.toFOp).st (accOf g)) := by
+    EnvV a (gView g) (stView (fstep b ⟨g.st, phaseOf g b⟩ r.toFOp).st (auxOf g)) := by
   obtain ⟨e, t, wb, db, hdel⟩ := exreg_trans g.st b (phaseOf g b) r
-  refine envV_of_vtrans (vtrans_lift (accOf g) t ?_) (wbv_of_wb _ (wb a hab)) (db a hab)
+  refine envV_of_vtrans (vtrans_lift (auxOf g) t ?_) (wbv_of_wb _ (wb a hab)) (db a hab)
   intro k x hk
+  show x ∉ accOf g k
   rw [not_locked_acc (ex_unlocked hs (hdel k x hk))]; exact List.not_mem_nil
+
+/-- the stale ghosts after a caller region -/
+def auxAfter (g : G) (pc : Pc) : Aux :=
+  ⟨accOf g, fun x k => (x, k) ∈ g.staleG ++ staleGOf pc, fun x s => (x, s) ∈ g.staleW ++ staleWOf pc⟩
+
+/-- the entry region of a `demonitor` that fetched no `Arc`: the listener goes, the reverse entry (if a
+`monitor` created one meanwhile) stays and is recorded as stale -/
+theorem envV_fwd (g : G) (g1 b : Nat) (a : Nat) :
+    EnvV a (gView g) (stView (demonitorFwdSt g.st g1 b) (auxAfter g (.demonitorFwd g1 b))) := by
+  have t := trans_demonitorFwd g.st g1 b
+  have hL : ∀ k x, x ∈ listenersOf (demonitorFwdSt g.st g1 b) k ↔ x ∈ listenersOf g.st k ∧ ¬ (k = (defaultScope, g1) ∧ x = b) := by
+    intro k x; rw [t.l]; simp [demFwdEff]
+  have hRG : ∀ x k, k ∈ relGmon (demonitorFwdSt g.st g1 b) x ↔ k ∈ relGmon g.st x := by
+    intro x k; rw [t.rg]; simp [demFwdEff]
+  have hM : ∀ k x, x ∈ membersOf (demonitorFwdSt g.st g1 b) k ↔ x ∈ membersOf g.st k := by
+    intro k x; rw [t.m]; simp [demFwdEff]
+  have hRM : ∀ x k, k ∈ relMem (demonitorFwdSt g.st g1 b) x ↔ k ∈ relMem g.st x := by
+    intro x k; rw [t.rm]; simp [demFwdEff]
+  have hW : ∀ s x, x ∈ worldOf (demonitorFwdSt g.st g1 b) s ↔ x ∈ worldOf g.st s := by
+    intro s x; rw [t.w]; simp [demFwdEff]
+  have hRW : ∀ x s, s ∈ relWmon (demonitorFwdSt g.st g1 b) x ↔ s ∈ relWmon g.st x := by
+    intro x s; rw [t.rw]; simp [demFwdEff]
+  refine ⟨fun h => h, fun h => h, ?_, ?_, ?_, ?_, ?_, ?_, ?_, ?_, ?_, ?_, ?_, ?_⟩
+  · intro h k hk
+    have hk' : a ∈ membersOf (demonitorFwdSt g.st g1 b) k ∨ a ∈ accOf g k := hk
+    show k ∈ relMem (demonitorFwdSt g.st g1 b) a
+    rw [hRM]; exact h k (hk'.elim (fun z => Or.inl ((hM k a).mp z)) Or.inr)
+  · intro h k hk
+    show k ∈ relGmon (demonitorFwdSt g.st g1 b) a
+    rw [hRG]; exact h k ((hL k a).mp hk).1
+  · intro h s hs
+    show s ∈ relWmon (demonitorFwdSt g.st g1 b) a
+    rw [hRW]; exact h s ((hW s a).mp hs)
+  · intro h k hk
+    have := h k ((hRM a k).mp hk)
+    exact this.elim (fun z => Or.inl ((hM k a).mpr z)) Or.inr
+  · intro h k hk
+    rcases h k ((hRG a k).mp hk) with z | z
+    · by_cases e : k = (defaultScope, g1) ∧ a = b
+      · right
+        show (a, k) ∈ g.staleG ++ staleGOf (.demonitorFwd g1 b)
+        rw [e.1, e.2]; simp [staleGOf]
+      · exact Or.inl ((hL k a).mpr ⟨z, e⟩)
+    · right
+      show (a, k) ∈ g.staleG ++ staleGOf (.demonitorFwd g1 b)
+      exact List.mem_append_left _ z
+  · intro h s hs
+    rcases h s ((hRW a s).mp hs) with z | z
+    · exact Or.inl ((hW s a).mpr z)
+    · right
+      show (a, s) ∈ g.staleW ++ staleWOf (.demonitorFwd g1 b)
+      exact List.mem_append_left _ z
+  · intro _ k hk
+    have hk' : a ∈ membersOf (demonitorFwdSt g.st g1 b) k ∨ a ∈ accOf g k := hk
+    exact hk'.elim (fun z => Or.inl ((hM k a).mp z)) Or.inr
+  · intro _ k hk; exact ((hL k a).mp hk).1
+  · intro _ s hs; exact (hW s a).mp hs
+  · intro _ k hk; exact (hRM a k).mp hk
+  · intro _ k hk; exact (hRG a k).mp hk
+  · intro _ s hs; exact (hRW a s).mp hs
+
+theorem envV_scopeFwd (g : G) (s1 b : Nat) (a : Nat) :
+    EnvV a (gView g) (stView (demonitorScopeFwdSt g.st s1 b) (auxAfter g (.demonitorScopeFwd s1 b))) := by
+  have t := trans_demonitorScopeFwd g.st s1 b
+  have hL : ∀ k x, x ∈ listenersOf (demonitorScopeFwdSt g.st s1 b) k ↔ x ∈ listenersOf g.st k := by
+    intro k x; rw [t.l]; simp [demScopeFwdEff]
+  have hRG : ∀ x k, k ∈ relGmon (demonitorScopeFwdSt g.st s1 b) x ↔ k ∈ relGmon g.st x := by
+    intro x k; rw [t.rg]; simp [demScopeFwdEff]
+  have hM : ∀ k x, x ∈ membersOf (demonitorScopeFwdSt g.st s1 b) k ↔ x ∈ membersOf g.st k := by
+    intro k x; rw [t.m]; simp [demScopeFwdEff]
+  have hRM : ∀ x k, k ∈ relMem (demonitorScopeFwdSt g.st s1 b) x ↔ k ∈ relMem g.st x := by
+    intro x k; rw [t.rm]; simp [demScopeFwdEff]
+  have hW : ∀ s x, x ∈ worldOf (demonitorScopeFwdSt g.st s1 b) s ↔ x ∈ worldOf g.st s ∧ ¬ (s = s1 ∧ x = b) := by
+    intro s x; rw [t.w]; simp [demScopeFwdEff]
+  have hRW : ∀ x s, s ∈ relWmon (demonitorScopeFwdSt g.st s1 b) x ↔ s ∈ relWmon g.st x := by
+    intro x s; rw [t.rw]; simp [demScopeFwdEff]
+  refine ⟨fun h => h, fun h => h, ?_, ?_, ?_, ?_, ?_, ?_, ?_, ?_, ?_, ?_, ?_, ?_⟩
+  · intro h k hk
+    have hk' : a ∈ membersOf (demonitorScopeFwdSt g.st s1 b) k ∨ a ∈ accOf g k := hk
+    show k ∈ relMem (demonitorScopeFwdSt g.st s1 b) a
+    rw [hRM]; exact h k (hk'.elim (fun z => Or.inl ((hM k a).mp z)) Or.inr)
+  · intro h k hk
+    show k ∈ relGmon (demonitorScopeFwdSt g.st s1 b) a
+    rw [hRG]; exact h k ((hL k a).mp hk)
+  · intro h s hs
+    show s ∈ relWmon (demonitorScopeFwdSt g.st s1 b) a
+    rw [hRW]; exact h s ((hW s a).mp hs).1
+  · intro h k hk
+    have := h k ((hRM a k).mp hk)
+    exact this.elim (fun z => Or.inl ((hM k a).mpr z)) Or.inr
+  · intro h k hk
+    rcases h k ((hRG a k).mp hk) with z | z
+    · exact Or.inl ((hL k a).mpr z)
+    · right
+      show (a, k) ∈ g.staleG ++ staleGOf (.demonitorScopeFwd s1 b)
+      exact List.mem_append_left _ z
+  · intro h s hs
+    rcases h s ((hRW a s).mp hs) with z | z
+    · by_cases e : s = s1 ∧ a = b
+      · right
+        show (a, s) ∈ g.staleW ++ staleWOf (.demonitorScopeFwd s1 b)
+        rw [e.1, e.2]; simp [staleWOf]
+      · exact Or.inl ((hW s a).mpr ⟨z, e⟩)
+    · right
+      show (a, s) ∈ g.staleW ++ staleWOf (.demonitorScopeFwd s1 b)
+      exact List.mem_append_left _ z
+  · intro _ k hk
+    have hk' : a ∈ membersOf (demonitorScopeFwdSt g.st s1 b) k ∨ a ∈ accOf g k := hk
+    exact hk'.elim (fun z => Or.inl ((hM k a).mp z)) Or.inr
+  · intro _ k hk; exact (hL k a).mp hk
+  · intro _ s hs; exact ((hW s a).mp hs).1
+  · intro _ k hk; exact (hRM a k).mp hk
+  · intro _ k hk; exact (hRG a k).mp hk
+  · intro _ s hs; exact (hRW a s).mp hs
+
+theorem auxAfter_eq (g : G) (pc : Pc) (h : ¬ isFwd pc) : auxAfter g pc = auxOf g := by
+  unfold auxAfter auxOf
+  have h1 : staleGOf pc = [] := by cases pc <;> first | rfl | exact absurd trivial h
+  have h2 : staleWOf pc = [] := by cases pc <;> first | rfl | exact absurd trivial h
+  rw [h1, h2]; simp
 
 /-- a caller region stepped through `callStep` -/
 theorem envV_call (g : G) (pc : Pc) (hb : ¬ blocked g pc) (a : Nat) :
-    EnvV a (gView g) (stView (callStep g.st pc).1 (accOf g)) := by
-  obtain ⟨e, t, wb, db, hdel⟩ := call_trans g.st pc
-  refine envV_of_vtrans (vtrans_lift (accOf g) t ?_) (wbv_of_wb _ (wb a)) (db a)
-  intro k x hk
-  rw [not_locked_acc (unlocked_of_needs hb (hdel k x hk))]; exact List.not_mem_nil
+    EnvV a (gView g) (stView (callStep g.st pc).1 (auxAfter g pc)) := by
+  by_cases hf : isFwd pc
+  · cases pc with
+    | demonitorFwd g1 b => exact envV_fwd g g1 b a
+    | demonitorScopeFwd s1 b => exact envV_scopeFwd g s1 b a
+    | _ => exact absurd hf (by simp [isFwd])
+  · rw [auxAfter_eq g pc hf]
+    obtain ⟨e, t, wb, db, hdel⟩ := call_trans g.st pc
+    refine envV_of_vtrans (vtrans_lift (auxOf g) t ?_) (wbv_of_wb _ (wb a hf)) (db a)
+    intro k x hk
+    show x ∉ accOf g k
+    rw [not_locked_acc (unlocked_of_needs hb (hdel k x hk))]; exact List.not_mem_nil
 
 /-! ### the three regions inside `join_scoped`'s entry lock -/
 
@@ -398,9 +552,9 @@ theorem envV_lock (g : G) (k : Key) (i : Nat) (as : List Nat) (thr' : List Pc) (
     by_cases e : k' = k
     · rw [if_pos e, e, not_locked_acc hu]
     · rw [if_neg e]; rfl
-  show EnvV a (gView g) (stView (touchGroup g.st k) (accOf { g with st := touchGroup g.st k, locks := set g.locks k (i, as, []), thr := thr' }))
+  show EnvV a (gView g) (stView (touchGroup g.st k) ⟨accOf { g with st := touchGroup g.st k, locks := set g.locks k (i, as, []), thr := thr' }, _, _⟩)
   rw [hacc]
-  exact envV_of_vtrans (vtrans_lift (accOf g) (trans_of_same (same_touchGroup g.st k)) (by simp))
+  exact envV_of_vtrans (vtrans_lift (auxOf g) (trans_of_same (same_touchGroup g.st k)) (by simp))
     (wbv_of_wb _ (wb_empty a g.st)) id
 
 theorem joinOne_relMem (st : State) (k : Key) (x y : Nat) (k' : Key) :
@@ -436,7 +590,7 @@ theorem envV_one (g : G) (k : Key) (i x : Nat) (thr' : List Pc) (hx : x ∉ g.st
   have t : VTrans (gView g)
       (gView { g with st := joinOne g.st k x, locks := set g.locks k (i, asOf g k, accOf g k ++ [x]), thr := thr' })
       (joinOneEff k x) := by
-    refine ⟨?_, ?_, ?_, ?_, ?_, ?_, fun _ h => h⟩
+    refine ⟨?_, ?_, ?_, ?_, ?_, ?_, fun _ h => h, fun _ _ h => h, fun _ _ h => h⟩
     · intro k' y
       show (y ∈ membersOf g.st k' ∨ y ∈ ((get (set g.locks k (i, asOf g k, accOf g k ++ [x])) k').map (·.2.2)).getD []) ↔
         ((y ∈ membersOf g.st k' ∨ y ∈ accOf g k') ∧ ¬ False) ∨ (k' = k ∧ y = x)
@@ -509,7 +663,7 @@ theorem envV_commit (g : G) (k : Key) (thr' : List Pc) (ch : List Pending) (hl :
   obtain ⟨hw, hr, hd⟩ := joinCommit_rest g.st k (joinedOf g k)
   have t : VTrans (gView g)
       (gView { g with st := joinCommit g.st k (joinedOf g k), locks := erase g.locks k, thr := thr', changes := ch }) {} := by
-    refine ⟨?_, ?_, ?_, ?_, ?_, ?_, ?_⟩
+    refine ⟨?_, ?_, ?_, ?_, ?_, ?_, ?_, fun _ _ h => h, fun _ _ h => h⟩
     · intro k' y
       show (y ∈ membersOf (joinCommit g.st k (joinedOf g k)) k' ∨ y ∈ ((get (erase g.locks k) k').map (·.2.2)).getD []) ↔
         ((y ∈ membersOf g.st k' ∨ y ∈ accOf g k') ∧ ¬ False) ∨ False
@@ -679,10 +833,21 @@ theorem allInv_start {st : State} (h : Inv st) (calls : List Pc) :
       (∀ s, a ∈ st.dead → a ∉ worldOf st s) :=
     ⟨fun k hd => (dead_owns_nothing h hd).1 k, fun k hd => (dead_owns_nothing h hd).2.1 k,
       fun s hd => (dead_owns_nothing h hd).2.2 s⟩
-  refine ⟨fun k hk => (hM k).mpr ((h.mem k a).mpr hk), fun k hk => (h.gmon k a).mpr hk, fun s hs => (h.wmon s a).mpr hs,
+  refine ⟨fun k hk => (hM k).mpr ((h.mem k a).mpr hk), fun k hk => Or.inl ((h.gmon k a).mpr hk),
+    fun s hs => Or.inl ((h.wmon s a).mpr hs),
     fun hp => absurd rfl hp, fun k hk => (h.mem k a).mp ((hM k).mp hk), fun k hk => (h.gmon k a).mp hk,
     fun s hs => (h.wmon s a).mp hs, (fun hp => by cases hp), (fun hp => by cases hp), ?_⟩
   intro _ hd
-  exact ⟨fun k hk => c1 k hd ((hM k).mp hk), fun k => c2 k hd, fun s => c3 s hd⟩
+  have hr := h.dead a hd
+  refine ⟨⟨fun k hk => c1 k hd ((hM k).mp hk), fun k => c2 k hd, fun s => c3 s hd⟩, ?_, ?_, ?_⟩
+  · intro k hk
+    have hk' : k ∈ relMem st a := hk
+    simp [relMem, relOf, hr, Rel.empty] at hk'
+  · intro k hk
+    have hk' : k ∈ relGmon st a := hk
+    simp [relGmon, relOf, hr, Rel.empty] at hk'
+  · intro s hs
+    have hs' : s ∈ relWmon st a := hs
+    simp [relWmon, relOf, hr, Rel.empty] at hs'
 
 end Pg.Conc
